@@ -533,7 +533,7 @@ def main(tier, seed):
     chk.bounds = ["Born entries in [-2,2], dielectric tensor symmetric within +-0.2 of %s, direction n in [-1,1]^3 with |n|^2 >= 1/4 (fractional), lambda in (0.01,100)" % EPS0.tolist(),
                   "geometries as listed; force constants concrete except in zero_born (symbolic)",
                   "sym_born: crystals %s, tensor entries in [-0.02, 0.02] (linear identities scale; the box keeps the 'symmetry largely broken' warning branch infeasible)" % SB_CRYSTALS]
-    chk.outside = ["Gonze-Lee with symbolic eps or Born charges (exp of a symbolic argument)", "'full terms' option", "rounding"]
+    chk.outside = ["Gonze-Lee with symbolic eps or Born charges (exp of a symbolic argument)", "'full terms' option", "rounding", "the ImportError fallback of the Wang method (it cannot run: its last step calls the compiled solver again)"]
     chk.assumptions = ["doubles as exact reals; nonlinear identities are posed per entry", "Gonze-Lee Gamma limit: only the direction dependence is symbolic; its absolute level is compared numerically within 1e-4 relative (the reciprocal-sum precision)"]
     chk.run_units(run_unit, us)
     return chk.finish()
